@@ -68,6 +68,7 @@ def main():
                        'completeness of the Renes-Costello-Batina formulas on prime-order curves is the published theorem (eprint 2015/1060); the transcription of the output polynomials is validated against the affine chord-tangent law at start-up (doubling, inverse, infinity, random Z scalings)',
                        'outputs satisfy the projective curve equation whenever inputs do: consequence of the theorem, not re-proved here']
     fails = {}
+    engines = []
     t0 = time.time()
 
     def add(k, desc):
@@ -75,6 +76,8 @@ def main():
 
     # ------------------------------------------------------------ 1. Add / Double / Negate as polynomial identities, all aliasing patterns
     eng = field_engine(prog)
+    eng.deadline = time.time() + (600 if not thorough else 3600)    # a changed tree can make the point code fork on field comparisons
+    engines.append(eng)
     nid = 0
 
     def run_arith(e):
@@ -140,6 +143,8 @@ def main():
 
     # ------------------------------------------------------------ 2. decoding: exactly 00 and 04||x||y with canonical on-curve coordinates
     eng = field_engine(prog)
+    eng.deadline = time.time() + (600 if not thorough else 3600)    # a changed tree can make the point code fork on field comparisons
+    engines.append(eng)
     unknown = []
 
     def run_decode(e):
@@ -197,6 +202,8 @@ def main():
 
     # ------------------------------------------------------------ 3. encoding / affine conversion (safe and fast versions)
     eng = field_engine(prog)
+    eng.deadline = time.time() + (600 if not thorough else 3600)    # a changed tree can make the point code fork on field comparisons
+    engines.append(eng)
 
     eng.byteslen_choices = [32, 31, 1, 0]     # 2..30-byte coordinates: the prover does not get through (candidate models only); covered by the concrete search in the replay below
     ck.bounds.append('Bytes_Unsafe: byte lengths of the affine coordinates case-split over %s (other leading-zero counts are cut)' % eng.byteslen_choices)
@@ -342,6 +349,8 @@ func TestVerifReplay(t *testing.T) {
     if okr is False and not fails:
         ck.record('reference_points', 'violated', 'real build disagrees with the affine reference on special pairs: ' + (outr or '')[-200:].replace('\n', ' '))
         ck.violation('points-reference', 'point arithmetic / encoding disagrees with the affine reference', pathr)
+    if any(getattr(g_, 'budget_hit', None) for g_ in engines):
+        ck.record('points[time-budget]', 'inconclusive', 'a symbolic exploration stopped at its time budget (%s decision prefixes left)' % [getattr(g_, 'budget_hit', 0) for g_ in engines])
     if unknown:
         ck.record('points_unknown', 'inconclusive', 'solver unknown on %s' % sorted(set(unknown)))
     if not fails:
